@@ -63,6 +63,13 @@ CHECKS = {
         technique=MC_TECH + " (all argument tuples over small alphabets for every listed std function, differential against reference definitions)",
         design="DESIGN.md §4 C10",
     ),
+    "C11": dict(
+        category="exploration",
+        text="Every listed string/codec/parser function applied to every tuple from: all strings up to length 4 over an ASCII/2-byte/3-byte/astral alphabet and up to length 12 over {a, é}, all patterns up to length 2, offsets/counts -1..len+2, maxsplits {-1,0,1,2,len}, all byte arrays up to length 3 over valid and invalid UTF-8 bytes with base64 padding variants, numeric strings around digit-validity and 2^53/2^64 boundaries, JSON documents (valid and malformed); compared with code-point-indexed reference functions, inverse laws and Python hashlib digests.",
+        note="Trusted: the reference functions in harness/src/c11.rs, the strict JSON reader, Python 3.11 hashlib (oracles/digests.py).",
+        technique=MC_TECH + " (all argument tuples over small multi-byte alphabets for every listed std function, differential against reference definitions and hashlib)",
+        design="DESIGN.md §4 C11",
+    ),
 }
 
 
